@@ -44,3 +44,17 @@ Theorem C07_closed_preserved_with_table_files_refuted :
     /\ exists b, reachable (m_chunks st) (m_root st) b /\ ~ Has (m_chunks st) b.
 Proof. exact closed_preserved_with_table_files_refuted. Qed.
 Print Assumptions C07_closed_preserved_with_table_files_refuted.
+
+Theorem C07_oracle_model_obs :
+  forall i : input, no_add_tables_b (i_events i) = true -> oracle i (model_obs i) = true.
+Proof. exact oracle_model_obs. Qed.
+Print Assumptions C07_oracle_model_obs.
+
+Theorem C07_closed_preserved_table_files_memtable_child_refuted :
+  exists (cap : N) (es : list event),
+    let st := run (init cap) es in
+    m_root (run (init cap) (firstn 2 es)) <> 0
+    /\ m_root st <> 0
+    /\ exists b, reachable (m_chunks st) (m_root st) b /\ ~ Has (m_chunks st) b.
+Proof. exact closed_preserved_table_files_memtable_child_refuted. Qed.
+Print Assumptions C07_closed_preserved_table_files_memtable_child_refuted.
